@@ -27,3 +27,11 @@ Definition judge_counters (c : ranking * ranking * list Z) : nat :=
   | Some k => code (cnt_eqb k l) true
   | None => code false true
   end.
+
+(** large inputs (C01/big): the dataset is ONE strict ranking 0 < 1 < ... < n-1 and the candidate ties the n elements; the score the
+    library returned (in units) is compared with the closed form of [C01_all_tied_against_strict] - nothing of size n is built here *)
+Definition judge_big_tied (c : scheme * Z * option Z) : nat :=
+  let '(s, n, out) := c in
+  let spec := match out with Some v => (v * 2 =? t0 s * (n * (n - 1))) | None => false end in
+  code true spec.
+
